@@ -231,6 +231,32 @@ theorem rownum_wrapper_is_slice {α : Type} (o l : Option Nat) (rows : List α) 
       congr 1
       omega
 
+/-! ## slice() / __getitem__ on top of an existing OFFSET -/
+
+/-- Python `l[a:b]` for `0 ≤ a`, `0 ≤ b` -/
+def pySlice (a : Nat) (b : Option Nat) (l : List α) : List α :=
+  match b with
+  | none => l.drop a
+  | some stop => (l.take stop).drop a
+
+/-- **slice_after_offset**: `stmt.offset(k).slice(a, b)` / `q.offset(k)[a:b]` must select
+    `rows[k:][a:b]`; that is the slice with offset `k + a` and limit `b - a` which
+    `_make_slice` computes (it must ADD the slice start to the existing offset — also when
+    the start is 0 — and never drop it). -/
+theorem slice_after_offset {α : Type} (k a : Nat) (b : Option Nat) (rows : List α) :
+    pySlice a b (rows.drop k) = slice (k + a) (b.map (· - a)) rows := by
+  cases b with
+  | none => simp [pySlice, slice, List.drop_drop, Nat.add_comm]
+  | some stop =>
+    simp only [pySlice, slice, Option.map_some]
+    rw [List.drop_take, List.drop_drop, Nat.add_comm]
+
+/-- with slice start 0 the existing offset is what remains -/
+theorem slice_zero_keeps_offset {α : Type} (k n : Nat) (rows : List α) :
+    pySlice 0 (some n) (rows.drop k) = slice k (some n) rows := by
+  have := slice_after_offset k 0 (some n) rows
+  simpa using this
+
 /-! ## WITH TIES and PERCENT -/
 
 /-- the slice is a prefix of the WITH TIES result and every extra row ties with the
